@@ -1064,6 +1064,64 @@ def run_path(case):
     return ok(outcome=digest(run.obs.get('params')))
 
 
+# =============================================================================================== mh-reuse
+_REUSE_SIMS = []
+
+
+def sim_two(t1, t2, batch_size=1, random_state=None):
+    t1 = np.broadcast_to(np.asarray(t1, dtype=float).reshape(-1), (batch_size,))
+    t2 = np.broadcast_to(np.asarray(t2, dtype=float).reshape(-1), (batch_size,))
+    _REUSE_SIMS.append((float(t1[0]), float(t2[0])))
+    return np.column_stack((t1, t2)) + random_state.normal(0, 0.3, size=(batch_size, 2))
+
+
+def summ_two(y):
+    return y
+
+
+def run_reuse(case):
+    """Several sample() calls on ONE BSL object, the parameters listed in different orders: in every call no simulation
+    happens outside the prior support, every chain state lies inside it and carries its own prior log density."""
+    import elfi
+    from .. import models
+    models.native_client()
+    m = elfi.ElfiModel(name='c20reuse')
+    elfi.Prior('uniform', 0, 2, model=m, name='t1')          # supports overlap but differ: t1 in [0,2], t2 in [1,3]
+    elfi.Prior('uniform', 1, 2, model=m, name='t2')
+    elfi.Simulator(sim_two, m['t1'], m['t2'], observed=np.array([[0.4, 0.4]]), model=m, name='sim')
+    elfi.Summary(summ_two, m['sim'], model=m, name='S')
+    bsl = elfi.BSL(m, n_sim_round=case['nsr'], feature_names='S', batch_size=case['nsr'], seed=case['seed'])
+    sigma = np.diag([0.3, 0.3]) ** 2
+
+    def inside(pt):
+        return 0 <= pt['t1'] <= 2 and 1 <= pt['t2'] <= 3
+    n_calls = 0
+    for k, order in enumerate(case['orders']):
+        names = ['t1', 't2'] if order is None else list(order)
+        start = len(_REUSE_SIMS)
+        kw = {} if order is None else {'param_names': list(order)}
+        bsl.sample(case['n'], sigma_proposals=sigma, params0=np.array([1.5, 1.5]), bar=False, **kw)
+        n_calls += 1
+        what = {'case': case, 'call': k, 'param_names': order}
+        for t1, t2 in _REUSE_SIMS[start:]:
+            if not inside({'t1': t1, 't2': t2}):
+                return bad('C20:mh-reuse:simulated-outside-the-prior-support', dict(what, t1=t1, t2=t2))
+        st = bsl.state
+        params = np.asarray(st['params'], dtype=float)
+        lps = st.get('logprior')
+        for n_ in range(len(params)):
+            pt = dict(zip(names, params[n_]))
+            if not inside(pt):
+                return bad('C20:mh-reuse:chain-state-outside-the-prior-support', dict(what, state=n_, point=pt))
+            if lps is not None and not np.isclose(float(np.ravel(lps[n_])[0]), math.log(0.25), rtol=1e-12, atol=0):
+                return bad('C20:mh-reuse:stored-log-prior-is-not-the-prior-of-the-state',
+                           dict(what, state=n_, point=pt, stored=float(np.ravel(lps[n_])[0]), prior_log_density=math.log(0.25)))
+    del _REUSE_SIMS[:]
+    r = ok(outcome=digest((case['orders'], case['seed'])), reuse_calls=n_calls)
+    r.update(evals=n_calls, distinct=n_calls)
+    return r
+
+
 KNOWN_STATE_KEYS = {'logposterior', 'logprior', 'n_batches', 'n_samples', 'n_sim', 'n_sim_round', 'params', 'round', 'gamma'}
 
 
@@ -1080,7 +1138,7 @@ def state_layout():
         return None
 
 
-RUNNERS = {'standard': run_standard, 'unbiased': run_unbiased, 'misspec': run_misspec, 'semiparam': run_semiparam,
+RUNNERS = {'reuse': run_reuse, 'standard': run_standard, 'unbiased': run_unbiased, 'misspec': run_misspec, 'semiparam': run_semiparam,
            'transform': run_transform, 'ratio': run_ratio, 'process': run_process, 'tree': run_tree, 'path': run_path}
 
 
@@ -1298,12 +1356,20 @@ def run(ctx):
                     cases.append(dict(c, N=4 if q else 5, bound=3 if (not q and lay == (2, 2)) else 2))
         _record_trees(ctx, cases, 'mh-chain')
 
+    # ---------------------------------------------------------------- mh-reuse (one object, several calls, parameter orders)
+    if want('mh-reuse'):
+        orders = [None, ['t1', 't2'], ['t2', 't1']]
+        cases = [{'kind': 'reuse', 'orders': [a, b], 'seed': base + k, 'n': 40 if q else 120, 'nsr': 4}
+                 for a in orders for b in orders for k in range(1 if q else 3)]
+        _record_with_witness(ctx, _guard(run_reuse), cases, 'mh-reuse', sample_every=max(1, len(cases) // 2))
+
     ctx.rule = (
         'likelihood sections: product (n,d) x explicit matrix x whitening x shrinkage, each case enumerates its ssy grid '
         '(x gamma grid) itself, evaluations = calls of the real likelihood function, every sub-case distinct by content; '
         'transform / mh-ratio / mh-process: product over tuples of bound-row types, each case enumerates its point grid; '
         'mh-step / mh-chain: one case = the complete tree of environment answer sequences of one configuration explored '
         'with vmc.explore (evaluations = executions of the real step methods, distinct = distinct answer sequences); '
+        'mh-reuse: all ordered pairs of parameter orders for two sample() calls on one object (real random stream, seeded); '
         'non-trivial = the oracle compared a value (near-singular Ghurye-Olkin points and u==prob ties are counted apart)')
     ctx.assumptions += [
         'matrices are integer / half-integer valued with variances >= 0.5 and covariance eigenvalue ratio >= 0.04; ssy on '
